@@ -242,6 +242,11 @@ pub fn main(args: &Args) -> i32 {
     }
     let cases = if args.cases > 0 { args.cases } else if args.thorough() { 30000 } else { 4000 };
     let caps = if args.thorough() { (3000, 6000) } else { (400, 1200) };
+    // harvested family first: the definitions that ship with the repository under test
+    if harvest_part(prop, args, &mut run) != 0 {
+        run.write_evidence(&args.evidence);
+        return 1;
+    }
     let strat = case_strategy();
     let result = drive(&strat, cases, args.seed ^ fnv(prop.as_bytes()), 400, &mut run, |case, run| {
         run_case(prop, case, run, caps).map_err(|(_, f, _)| f[0].what.clone())
@@ -276,6 +281,74 @@ pub fn main(args: &Args) -> i32 {
     let code = if code == 0 && prop == "C03" { empty_match_part(args, &mut run) } else { code };
     run.write_evidence(&args.evidence);
     code
+}
+
+/// Harvested family (model::harvest): every definition found in the repository's own tests, benches, examples and book,
+/// reduced to its automaton, lexed on its covering inputs and on `rounds` sets of proptest walks / noise strings.
+fn harvest_part(prop: &str, args: &Args, run: &mut Run) -> i32 {
+    use proptest::strategy::ValueTree;
+    use proptest::test_runner::{Config, RngSeed, TestRunner};
+    let mut runner = TestRunner::new(Config { rng_seed: RngSeed::Fixed(args.seed ^ fnv(prop.as_bytes()) ^ 0x68617276), failure_persistence: None, ..Config::default() });
+    let strat = (vec(vec(any::<u16>(), 0..40), 12), vec(vec(any::<u8>(), 0..16), 6));
+    let rounds = if args.thorough() { 12 } else { 2 };
+    let caps = if args.thorough() { (6000, 12000) } else { (800, 2400) };
+    let defs = model::harvest::harvest();
+    run.count("harvested_defs_found", defs.len() as u64);
+    for h in &defs {
+        let def = &h.def;
+        let p = match prepare(def) {
+            Ok(p) => p,
+            Err(PrepError::Harness(m)) => panic!("harness fault: {m}\n{}", model::prep::render(def)),
+            Err(_) => {
+                // must-fail test data, definitions of other versions in the book, patterns outside the reference's reach
+                run.count("harvested_defs_not_usable", 1);
+                continue;
+            }
+        };
+        run.count("harvested_defs_lexed", 1);
+        run.count("harvested_leaves", def.n_leaves() as u64);
+        run.count("harvested_graph_states", p.graph.states.len() as u64);
+        let def_key = fnv(p.rust.as_bytes());
+        let mut fail: Option<(Vec<u8>, Vec<Finding>)> = None;
+        if prop == "C03" {
+            let f = structural(&p);
+            if !f.is_empty() {
+                fail = Some((vec![], f));
+            }
+        }
+        'rounds: for r in 0..rounds {
+            if fail.is_some() {
+                break;
+            }
+            let (walks, noise) = strat.new_tree(&mut runner).unwrap().current();
+            // the covering set is the same in every round: only the first one lexes it
+            let inputs = if r == 0 {
+                inputs_for(&p, def, &walks, &noise, caps.0, caps.1, run)
+            } else {
+                let mut v: Vec<Vec<u8>> = walks.iter().filter_map(|w| walk_input(&p.graph, w, ALPHABET, def.utf8)).collect();
+                v.extend(noise.iter().map(|n| noise_input(n, def.utf8)));
+                v
+            };
+            for input in &inputs {
+                let f = findings_for(prop, &p, def, input, Some(run), def_key);
+                if !f.is_empty() {
+                    fail = Some((input.clone(), f));
+                    break 'rounds;
+                }
+            }
+        }
+        if let Some((input, f)) = fail {
+            let input = shrink_input(prop, def, &input);
+            let f2 = findings_for(prop, &p, def, &input, None, 0);
+            let f = if f2.is_empty() { f } else { f2 };
+            run.violations = 1;
+            let mut rj = replay_json(prop, def, &p.rust, &input, &f);
+            rj["origin"] = json!(h.origin);
+            report_violation(prop, &args.replay_dir, &rj);
+            return 1;
+        }
+    }
+    0
 }
 
 /// C03, empty-match clause: patterns generated without the non-nullable fix-up (about a third can match
